@@ -263,3 +263,25 @@ where
         self.inner.verif_registry()
     }
 }
+
+#[cfg(crux_verif)]
+impl<A> BridgeWithSerializer<A>
+where
+    A: App,
+{
+    /// Verification hook (read-only): the number of tasks the wrapped core's executor holds.
+    pub fn verif_executor_tasks(&self) -> usize {
+        self.core.verif_executor_tasks()
+    }
+}
+
+#[cfg(crux_verif)]
+impl<A> Bridge<A>
+where
+    A: App,
+{
+    /// Verification hook (read-only): the number of tasks the wrapped core's executor holds.
+    pub fn verif_executor_tasks(&self) -> usize {
+        self.inner.verif_executor_tasks()
+    }
+}
